@@ -209,16 +209,22 @@ theorem Cov.append {A' A B' B : List α} (h₁ : Cov le A' A) (h₂ : Cov le B' 
     · obtain ⟨a, ha, hle⟩ := h₂.cov x h
       exact ⟨a, List.mem_append.2 (Or.inr ha), hle⟩
 
-/-- Filtering by a predicate that is closed under "becoming better" commutes with reductions. -/
-theorem Cov.filter {A' A : List α} (p : α → Bool)
-    (hp : ∀ a b, le a b = true → p b = true → p a = true) (h : Cov le A' A) :
+/-- Filtering by a predicate that is closed under "becoming better" (on the rows concerned) commutes
+with reductions. -/
+theorem Cov.filter_on {A' A : List α} (p : α → Bool)
+    (hp : ∀ a ∈ A', ∀ b ∈ A, le a b = true → p b = true → p a = true) (h : Cov le A' A) :
     Cov le (A'.filter p) (A.filter p) := by
   refine ⟨fun x hx => ?_, fun x hx => ?_⟩
   · rw [List.mem_filter] at hx ⊢
     exact ⟨h.sub x hx.1, hx.2⟩
   · rw [List.mem_filter] at hx
     obtain ⟨a, ha, hle⟩ := h.cov x hx.1
-    exact ⟨a, List.mem_filter.2 ⟨ha, hp _ _ hle hx.2⟩, hle⟩
+    exact ⟨a, List.mem_filter.2 ⟨ha, hp _ ha _ hx.1 hle hx.2⟩, hle⟩
+
+theorem Cov.filter {A' A : List α} (p : α → Bool)
+    (hp : ∀ a b, le a b = true → p b = true → p a = true) (h : Cov le A' A) :
+    Cov le (A'.filter p) (A.filter p) :=
+  h.filter_on p (fun a _ b _ => hp a b)
 
 /-- Monotone maps send reductions to reductions (possibly for a different, coarser order). -/
 theorem Cov.map {β : Type} {le' : β → β → Bool} {A' A : List α} (g : α → β)
